@@ -159,6 +159,32 @@ Definition enc_unit (le : bool) (h : lheader) (prog : list Z) (e : list Z) : Pro
     let after_len := enc_prefix le h ++ int_encode le (offsz (h_is64 h)) (zlen body) ++ body ++ prog in
     e = initial_length_encode le (zlen after_len) (h_is64 h) ++ after_len.
 
+(* the same, with the header body (everything after header_length) named: by definition
+   enc_unit le h prog e  <->  exists body, enc_body le h body /\ e = unit_bytes le h body prog *)
+Definition unit_rest (le : bool) (h : lheader) (body prog : list Z) : list Z :=
+  enc_prefix le h ++ int_encode le (offsz (h_is64 h)) (zlen body) ++ body ++ prog.
+Definition unit_bytes (le : bool) (h : lheader) (body prog : list Z) : list Z :=
+  initial_length_encode le (zlen (unit_rest le h body prog)) (h_is64 h) ++ unit_rest le h body prog.
+(* the unit without its program: initial length .. last header byte *)
+Definition unit_header_bytes (le : bool) (h : lheader) (body prog : list Z) : list Z :=
+  initial_length_encode le (zlen (unit_rest le h body prog)) (h_is64 h) ++
+  enc_prefix le h ++ int_encode le (offsz (h_is64 h)) (zlen body) ++ body.
+(* size of the initial length field (7.4) *)
+Definition ilsz (is64 : bool) : Z := if is64 then 12 else 4.
+(* unit_length and header_length must be representable in their fields (7.4: a 32-bit unit_length
+   is below 0xfffffff0) *)
+Definition sizes_ok (is64 : bool) (unit_length header_length : Z) : bool :=
+  initial_length_wf unit_length is64 && (header_length <? 2 ^ (8 * Z.of_nat (offsz is64))).
+
+(* the strings a value refers to by offset are present in the string sections of the file
+   (None = the file has no such section); sections are shorter than 2^63 bytes *)
+Definition refs_present (line_str str : option (list Z)) (v : fval) : Prop :=
+  match v with
+  | FV_line_strp off s => exists sec, line_str = Some sec /\ str_at sec off s /\ zlen sec < 2 ^ 63
+  | FV_strp off s => exists sec, str = Some sec /\ str_at sec off s /\ zlen sec < 2 ^ 63
+  | _ => True
+  end.
+
 (* ---- well-formedness (boolean; the Prop parts above carry the per-encoding conditions) *)
 Fixpoint nodupb (l : list Z) : bool :=
   match l with
